@@ -621,17 +621,23 @@ class JSONWriter(GenericWriter):
 
         self.encoder = fo
         self.encoder.configure(self.schema, self._named_schemas)
+        self._nothing_written = True
 
     def write(self, record):
         if self.validate_fn:
             self.validate_fn(
                 record, self.schema, self._named_schemas, "", True, self.options
             )
+        self._nothing_written = False
         write_data(
             self.encoder, record, self.schema, self._named_schemas, "", self.options
         )
 
     def flush(self):
+        if self._nothing_written:
+            # No record: there is nothing to emit and the encoder's parser,
+            # which only advances when something is written, cannot be flushed
+            return
         self.encoder.flush()
 
 
